@@ -903,3 +903,5 @@ META = {
     "statement and docs/error_handling.rst ('regardless of chain context').",
     "more": 'Also decided: every first CommandPipeline.end() reaches the per-command raise decision on every normal path, also for a command that could not be started. On the exception branch of main_xonsh the exit code is a non-zero constant, never a runtime value that can read 0 modulo 256. The pipeline the raise decision falls back to (XSH.lastcmd, for helpers that return no pipeline) is set again after the pipeline ended - an alias stage runs nested commands meanwhile; the reaper records minus the signal for a signalled child and the exit status for an exited one.',
 }
+
+META["more"] += ' Who may write the raise switches: nobody writes $XONSH_SUBPROC_RAISE_ERROR; the per-command switch is written only by the public subprocess API, the mode defaults and its definition (frozen table).'
